@@ -170,6 +170,11 @@ func Orchestrate(propID, tier string, seed int64, replay string) int {
 	if replay != "" {
 		return replayWitness(p, replay)
 	}
+	if old, _ := filepath.Glob(filepath.Join(VerifRoot(), "replay", propID+"-*.json")); len(old) > 0 {
+		for _, f := range old {
+			os.Remove(f)
+		}
+	}
 	dir := filepath.Join(VerifRoot(), ".work", fmt.Sprintf("%s.%d", propID, os.Getpid()))
 	os.MkdirAll(dir, 0o755)
 	defer os.RemoveAll(dir)
